@@ -86,7 +86,7 @@ func runC16(p *Prog, r *Report) {
 	n += ruleLocked(p, r, must, lockRule{Key: "locked.slot.trace", Field: slotTrace, Need: tracerMu,
 		Exempt: map[string]string{"(*internal/tracer.Tracer).Await": "reads the completed trace after done was observed nil/closed under the lock or through the channel (happens-before by close)"}})
 	connAlt := map[string][2]string{
-		"(*internal/tracer.tracingHTTP2Conn).handleFrame":      {"c.mu#tracingHTTP2Conn.mu", "connection-owned builder: all adds are serialised by the connection mutex"},
+		"(*internal/tracer.tracingHTTP2Conn).handleFrame":     {"c.mu#tracingHTTP2Conn.mu", "connection-owned builder: all adds are serialised by the connection mutex"},
 		"(*internal/tracer.tracingHTTP2Conn).newStreamLocked": {"c.mu#tracingHTTP2Conn.mu", "connection-owned builder, called with the connection mutex held"},
 	}
 	n += ruleLocked(p, r, must, lockRule{Key: "locked.builder.trace", Field: bTrace, Mu: "mu", Alt: connAlt})
